@@ -222,7 +222,7 @@ pub fn run(ctx: &Ctx) {
             Err(p) => violated("panic:inference", p),
         }
     });
-    ctx.run_sub("random-dags", Plan::sample(t.pick(40_000, 1_500_000), 0.35), |rng, case| {
+    ctx.run_sub("random-dags", Plan::sample(t.pick(150_000, 1_500_000), 0.35), |rng, case| {
         let n = rng.urange(2, t.pick(40, 200));
         let fam = *rng.pick(&[Family::None, Family::None, Family::Core, Family::Elements]);
         let dag = gen::gen_dag(rng, n, fam);
@@ -231,7 +231,7 @@ pub fn run(ctx: &Ctx) {
         let program = rng.bool();
         check_dag(&dag, program, k, rng, case)
     });
-    ctx.run_sub("well-typed-programs", Plan::sample(t.pick(12_000, 500_000), 0.25), |rng, case| {
+    ctx.run_sub("well-typed-programs", Plan::sample(t.pick(50_000, 500_000), 0.25), |rng, case| {
         let tp = TyParams { max_width: 60, max_depth: 4, max_word_n: 5 };
         let (a, b, program) = if rng.bool() { (ty::unit(), ty::unit(), true) } else { (ty::gen_ty(rng, &tp), ty::gen_ty(rng, &tp), false) };
         let fam = *rng.pick(&[Family::None, Family::Core, Family::Elements]);
